@@ -251,6 +251,10 @@ where
         if !vc.is_valid(&pd.start_states[0]) {
             return Err(PlanningError::InvalidStartState);
         }
+        // Likewise the root of the goal tree: every returned path ends there.
+        if !vc.is_valid(&self.goal_tree[0].state) {
+            return Err(PlanningError::NoSolutionFound);
+        }
 
         let mut rng = self
             .rng
